@@ -549,6 +549,10 @@ def c10(ctx):
 
 def c11(ctx):
     _fp(ctx, 'fround')
+    # "no AVEL operation leaves the rounding mode or the flush-to-zero settings different": every float operation again
+    # with FTZ / DAZ set by the caller, in all four rounding modes; only the environment facts are judged (FEnv.tla)
+    ctx.assumptions.append('environment preservation is observed around every call of every family (FTZ = DAZ = 0, four rounding modes) and, in the fenv family, around every float operation with FTZ and/or DAZ set by the caller')
+    runner.lane_facts(ctx, 'drv_fp.cpp', 'fenv', FP_GROUPS)
     if ctx.tier == 'thorough':
         ctx.assumptions.append('thorough: all 2^32 binary32 patterns of ceil/floor/trunc/round/nearbyint/rint/sqrt (RN and RD) and of logb/frac/abs/neg/classification swept natively against <cmath> in the quick configurations; disagreements (other than the sign of a zero computed from a non-zero input) are judged by TLC')
         saved = ctx.cfgs
